@@ -42,6 +42,9 @@ var outs = []outv{
 	{"crlf", "l1\nl2 \nl3"},
 	{"long", longOut(12)},
 	{"othercmd", "see show all for more\nshow alpha is done"},
+	// a line that is not prompt-like as a whole but whose last word is: only a search window that starts at a
+	// line boundary keeps it from being taken for the prompt; enough lines follow it for the window to slide over it
+	{"hashword", "interface Gi1\n description CUST:acme/id:4471#\n mtu 1500\n ip address 10.0.0.1/24\n no shutdown\nlast line of it"},
 }
 
 type conf struct {
@@ -382,7 +385,7 @@ func scenarios(tier string) []sched.Scenario {
 	}
 	for i, o := range outs {
 		for _, c := range confs {
-			if c.readSize == 1 {
+			if c.readSize == 1 && o.name != "hashword" {
 				continue // no cut alternatives exist with 1-byte reads; covered by (1)
 			}
 			b := sched.Bounds{Env: envB}
@@ -435,7 +438,7 @@ func TestCheck(t *testing.T) {
 			"'allseg' scenarios enumerate every segmentation of every piece of a tiny session; distinct = distinct (choice sequence, observed results)",
 		Assumptions: []string{
 			"device echoes input verbatim (or with wrap bytes in 'wrap' mode) and answers a line when its return arrives",
-			"outputs contain no byte in [#>$] so no proper prefix of an exchange looks like a prompt; escape sequences are never cut",
+			"no proper prefix of an exchange looks like a prompt: outputs contain [#>$] only at the end of a line that as a whole does not match the prompt pattern; escape sequences are never cut",
 			"search depth >= longest output line + prompt + 4",
 		},
 		Scenarios: scenarios,
